@@ -47,9 +47,15 @@ for sid in sorted(os.listdir(os.path.join(VERIF, "seeded"))):
     orc = [l.strip().split(" detail=")[0] for l in p.stdout.splitlines() if l.strip().startswith("oracle=")]
     runs = [l for l in p.stdout.splitlines() if " runs (" in l]
     ok = p.returncode == 1 and "VIOLATION" in p.stdout
+    if meta.get("expected") == "not-caught":
+        # kept for the record: outside what the property fixes / what the check models (see meta.json)
+        rows.append((sid, "caught after all" if ok else "not caught (as recorded in meta.json, by design)", f"{time.time() - t0:.0f}s", "", ""))
+        print(*rows[-1], sep=" | ", flush=True)
+        continue
     missed += 0 if ok else 1
     rows.append((sid, "CAUGHT" if ok else f"MISSED (exit {p.returncode})", f"{time.time() - t0:.0f}s", "; ".join(orc)[:150],
                  runs[-1].split(":")[1].split(" in ")[0].strip() if runs else ""))
     print(*rows[-1], sep=" | ", flush=True)
-print(f"{len(rows) - missed} of {len(rows)} seeded changes caught")
+n_expected = sum(1 for r in rows if r[1].startswith(("CAUGHT", "MISSED")))
+print(f"{n_expected - missed} of {n_expected} seeded changes caught ({len(rows) - n_expected} more recorded as not caught by design)")
 sys.exit(1 if missed else 0)
